@@ -22,10 +22,13 @@ from pyvc.spec import REG
 from .expr import *  # noqa
 from . import expr as _expr
 from . import expr_native as _native
+from . import c13_types as _types  # attribute chain on type values (dispatch / error side)
 
 LEVEL = "proof"
 _native.install(REG) if not _native.NATIVE.cases else None
 _native.install_chain() if not any(q.endswith('_visit_binary_operator_chain') for q, _, _ in _native.NATIVE.cases) else None
+_native.install_attribute() if not any(q.endswith('_operator.attribute') for q, _, _ in _native.NATIVE.cases) else None
+_native.install_types(REG) if not any(q.endswith('CompositeType._attribute') for q, _, _ in _native.NATIVE.cases) else None
 NATIVE = _native.NATIVE
 NATIVE_BUDGET = {"quick": 40, "thorough": 600}
 
